@@ -86,6 +86,11 @@ GROUPS = [guard(partition)]
 BOUNDED = [bounded("fa_repro.py", "array_vs_list", "C04.fa.byclass",
                    "ISV/JFA fit_using_array on a Dask array (3 chunkings, chunks mixing classes) equals the NumPy result in U, V, D (float64, rel. tol. 1e-8)")]
 SHARED = [("C02", "split_lemma", ["C02.split"]),
+          # the per-block functions meet the contracts the partition lemmas are stated over (modular closure)
+          ("C02", "estep_post", ["C02.estep.t", "C02.estep.n", "C02.estep.sum_px", "C02.estep.sum_pxx", "C02.estep.log_likelihood", "C02.estep.frame"]),
+          ("C02", "add_post", ["C02.iadd.log_likelihood", "C02.iadd.t", "C02.iadd.n", "C02.iadd.sum_px", "C02.iadd.sum_pxx"]),
+          ("C06", "estep", ["C06.assign", "C06.estep.criterion", "C06.estep.frame"]), ("C06", "mstep", ["C06.centroid", "C06.mstep.criterion"]),
+          ("C20", "varweights", ["C20.accumulate", "C20.reduce.one", "C20.reduce.blocks"]),
           ("C03", "loop_thr_max", ["C03.loop.body[thr=set,max=set]"]), ("C05", "loop_map", ["C05.loop.body[thr=set,max=set]"]),
           ("C06", "loop_thr_max", ["C06.loop.body[thr=set,max=set]"]), ("C06", "lemmas", ["C06.crit", "C06.centroid.mean"]),
           ("C20", "lemmas", ["C20.blocks"]), ("C20", "entry", ["C20.entry"]),
